@@ -424,7 +424,9 @@ pub fn gen_c03(tier: &str, seed: u64, out: &str) -> Value {
         let h = res - 1;
         for face in 0..12u8 { for seg in 0..5usize { for k in 0..per {
             let mask = (1u64 << (2 * h)) - 1;
-            let s = match k { 0 => rng.next() & mask, 1 => if (face as usize + seg) % 2 == 0 { 0 } else { mask }, _ => rng.next() & mask };
+            let ns = crate::ids::numeric_specials(h as usize, &mut rng);
+            let s = match k { 0 => rng.next() & mask, 1 => if (face as usize + seg) % 2 == 0 { 0 } else { mask },
+                              2 if !ns.is_empty() => *rng.pick(&ns), _ => rng.next() & mask };
             let id = serialize(&A5Cell { origin_id: face, segment: seg, s, resolution: res }).unwrap();
             t.emit(localmesh_event(id));
             n_local += 1;
@@ -452,6 +454,7 @@ pub fn localmesh_event(id: u64) -> Value {
     let tol = 1e-6 * cell_size(res) + 5e-14;
     let mut twinned = vec![];
     let mut nbrs = vec![];
+    let mut inward = vec![];
     if let Some(c) = centre {
         for i in 0..n {
             let (a, b) = (ring[i], ring[(i + 1) % n]);
@@ -479,9 +482,12 @@ pub fn localmesh_event(id: u64) -> Value {
             }
             twinned.push(ok);
             nbrs.push(nb.unwrap_or(0));
+            // ... and just inside the edge the cell itself must answer (a ring that is a valid ring of ANOTHER cell passes
+            // every twin test above: then two cells claim this ground and the cell's own ground is claimed by none)
+            inward.push(a5::lonlat_to_cell(towards(mid, c, 0.03), res).ok() == Some(id));
         }
     }
-    json!({"op": "localmesh", "id": quads(id), "res": res, "sides": n, "twinned": twinned, "nbrs": quads_list(&nbrs)})
+    json!({"op": "localmesh", "id": quads(id), "res": res, "sides": n, "twinned": twinned, "nbrs": quads_list(&nbrs), "inward": inward})
 }
 
 /// candidates: the cells answering lookups of the point and of 12 points pushed around it by up to 1.5 cell sizes
@@ -812,6 +818,13 @@ pub fn gen_c02(tier: &str, seed: u64, out: &str) -> Value {
             t.cut();
         } } }
         for p in &specials { if let Ok(id) = a5::lonlat_to_cell(*p, r) { t.emit(centre_event(id)); n_c += 1; } }
+        // positions that are special as numbers (decimal round, next to 2^16 / 2^32 / 2^53)
+        let ns = crate::ids::numeric_specials((r - 1) as usize, &mut rng);
+        for (i, &s) in ns.iter().enumerate() {
+            if tier != "thorough" && (i + r as usize) % 3 != 0 { continue; }
+            let id = serialize(&A5Cell { origin_id: rng.below(12) as u8, segment: rng.below(5) as usize, s, resolution: r }).unwrap();
+            t.emit(centre_event(id)); n_c += 1;
+        }
         t.cut();
     }
     for r in 0..=exr { for _ in 0..(if tier == "thorough" { 60 } else { 8 }) { let id = random_cell(&mut rng, r); n_i += interior_events(&mut t, "interior2", id, &mut rng, &[1e-10, 1e-4, 1e-2, 0.5]); t.cut(); } }
